@@ -182,6 +182,53 @@ fn arbitrary_door(ctx: &mut Ctx, rng: &mut Rng) {
         let n = rng.range(0, 48) as usize;
         inputs.push(rng.bytes(n));
     }
+    // collections: random octets practically never repeat a 32-bit value. Every sequence of up to
+    // five items over a few AS numbers (repeats adjacent and apart), in the layouts `arbitrary` uses
+    // for collections (a continue-octet before each item; items first and the count in the last
+    // octets), and a soup of such pieces.
+    let asns: [u32; 4] = [0, 1, 2, u32::MAX];
+    let seq_n: u64 = if ctx.stage == Stage::Miri { 60 } else { 4u64.pow(5) + 4u64.pow(4) + 4u64.pow(3) };
+    for code in 0..seq_n {
+        if !ctx.mine(index) {
+            index += 1;
+            continue;
+        }
+        index += 1;
+        let (len, mut c) = if code < 4u64.pow(5) { (5, code) } else if code < 4u64.pow(5) + 4u64.pow(4) { (4, code - 4u64.pow(5)) } else { (3, code - 4u64.pow(5) - 4u64.pow(4)) };
+        let items: Vec<u32> = (0..len)
+            .map(|_| {
+                let a = asns[(c % 4) as usize];
+                c /= 4;
+                a
+            })
+            .collect();
+        let mut a = Vec::new();
+        for it in &items {
+            a.push(1u8);
+            a.extend_from_slice(&it.to_le_bytes());
+        }
+        a.push(0);
+        inputs.push(a);
+        let mut b = Vec::new();
+        for it in &items {
+            b.extend_from_slice(&it.to_le_bytes());
+        }
+        b.extend_from_slice(&[0; 3]);
+        b.push(len as u8);
+        inputs.push(b);
+    }
+    for _ in 0..random_n / 4 {
+        let mut v = Vec::new();
+        for _ in 0..rng.range(1, 14) {
+            match rng.below(8) {
+                0 | 1 => v.push(1),
+                2 => v.push(0),
+                3 => v.push(0xff),
+                _ => v.extend_from_slice(&rng.pick(&asns).to_le_bytes()),
+            }
+        }
+        inputs.push(v);
+    }
     let mut made = [0u64; 5];
     for bytes in &inputs {
         let d = || json!({"arbitrary_input_hex": crate::core::hex(bytes)});
